@@ -16,6 +16,8 @@ unconnected pair.
 * `forest_build_succeeds`      : `fuel ≥ number of nodes` always suffices for `build`.
 * `forest_routes_exact_bounded`: both together with explicit fuel bounds (`n` nodes: `fuel ≥ n`).
 * `forest_path_unique`         : the returned chain is the ONLY simple chain of links from `s` to `t`.
+* `forest_tables_exact`        : the invariant itself — every table is the exact next-hop table:
+  `(t, d, k)` is an entry of `u` iff the simple chain from `u` to `t` starts with `d` and has `k` hops.
 * `forest_routingExact`        : the executable check `routingExact n hist` of `Model/NodeSpec.lean`
   (the one `small_forests_exact` decides for n ≤ 4) holds for every `n` and every history accepted
   by the executable forest test `isForestHist n`.
@@ -155,6 +157,50 @@ theorem forest_path_unique (fuel : Nat) (hist : List (Nat × Nat)) (g : Graph)
     by_cases hts : t = s'
     · subst hts; rw [if_pos rfl, dist_self]; rfl
     · rw [if_neg hts, if_pos hc', if_neg (by omega)]
+
+/-- **Every table is the exact next-hop table of the forest.**  `r = (target, dir, steps)` is an entry
+of the table of `u` iff there is a simple chain of inserted links `u, dir, …, target` with `steps`
+hops (that chain is unique by `forest_path_unique`); in particular no entry for unconnected targets
+or for `u` itself. -/
+theorem forest_tables_exact (fuel : Nat) (hist : List (Nat × Nat)) (g : Graph)
+    (hf : ForestHist hist) (hb : build fuel hist = some g) (u : Nat) (r : Route) :
+    r ∈ (get g u).routes ↔
+      ∃ l : List Nat, (u :: r.dir :: l).IsChain (linked hist) ∧ (u :: r.dir :: l).Nodup ∧
+        (u :: r.dir :: l).getLast? = some r.target ∧ r.steps = l.length + 1 := by
+  have hF := forest_reverse hf
+  have hex : Exact hist.reverse g :=
+    build_exact fuel hist.reverse g hF (by rw [List.reverse_reverse]; exact hb)
+  rw [hex.2 u r]
+  constructor
+  · rintro ⟨h1, h2, h3, h4⟩
+    obtain ⟨_, p2, p3, p4, p5⟩ := pathChain_props hF h1
+    obtain ⟨k, hk⟩ : ∃ k, dist hist.reverse u r.target = k + 1 :=
+      ⟨dist hist.reverse u r.target - 1, by have := dist_pos hF h1 h2; omega⟩
+    rw [hk] at p2 p3 p4 p5
+    simp only [chainTo] at p2 p3 p4 p5
+    rw [← h3] at p2 p3 p4 p5
+    refine ⟨_, isChain_reverse_lk p3, p4, p2, ?_⟩
+    simp only [List.length_cons] at p5
+    omega
+  · rintro ⟨l, hc, hnd, hl, hs⟩
+    have hc' : (u :: r.dir :: l).IsChain (Lk hist.reverse) :=
+      List.IsChain.imp (fun x y hxy => (lk_reverse hist x y).mpr hxy) hc
+    have hconn : Conn hist.reverse u r.target := conn_of_chain _ u _ hc' hl
+    have hne : u ≠ r.target := by
+      intro e
+      have hm : r.target ∈ r.dir :: l := by
+        rw [List.getLast?_cons_cons] at hl; exact List.mem_of_getLast? hl
+      rw [List.nodup_cons] at hnd
+      exact hnd.1 (e ▸ hm)
+    have huniq := forest_chain_unique hF r.target _ u hc' hnd hl
+    obtain ⟨k, hk⟩ : ∃ k, dist hist.reverse u r.target = k + 1 :=
+      ⟨dist hist.reverse u r.target - 1, by have := dist_pos hF hconn hne; omega⟩
+    rw [hk] at huniq
+    simp only [chainTo, List.cons.injEq, true_and] at huniq
+    have hlen := (chainTo_props hF r.target k _ (tree_hop_conn hF hconn hne)
+      (by have := (tree_step hF hconn hne).2; omega)).2.2.2.2
+    refine ⟨hconn, hne, huniq.1, ?_⟩
+    rw [hk, hs, huniq.2, hlen]
 
 theorem forestHist_of_forest : ∀ (rh : List (Nat × Nat)), Forest rh → ForestHist rh.reverse := by
   intro rh
